@@ -18,7 +18,7 @@ import os
 import numpy as np
 
 from vmon import lib_c12 as L
-from vmon import world
+from vmon import own, world
 
 PROPERTY = 'C12'
 RULE = ('profiles from a seeded generator: layer counts 2..60 and 100, pressure grids over 1e-3..12 decades (log-spaced '
@@ -46,14 +46,14 @@ REQUIRED = dict(
     monitors=['contract:one-per-layer', 'contract:finite-positive', 'contract:within-controls',
               'contract:constant-when-controls-equal', 'contract:isothermal-constant', 'contract:guillot-closed-form',
               'contract-fired', 'rejects-nonphysical', 'accepts-physical', 'controls-roundtrip',
-              'clone:original-unchanged-by-writes-to-the-copy'],
+              'clone:original-unchanged-by-writes-to-the-copy', 'caller-input-left-alone'],
     classes=['Isothermal', 'NPoint', 'Guillot2010', 'Rodgers2000', 'TemperatureArray', 'TemperatureFile',
              'npoint:valid', 'npoint:inverted', 'npoint:slope', 'npoint:all-equal', 'npoint:smoothed',
              'guillot:inside', 'guillot:outside-bounds', 'guillot:zero-kappa', 'guillot:negative-T',
              'guillot:alpha-outside', 'guillot:negative-kappa', 'guillot:reinit-judged', 'reinit:other-grid-same-n',
              'reinit:other-planet', 'reinit:planet-set', 'reinit:other-n', 'reinit:first-again', 'grid:integer-decades', 'array:index', 'array:pressure', 'array:all-equal',
              'rodgers:all-equal', 'nlayers:2', 'nlayers:100', 'grid:simple', 'grid:irregular', 'grid:narrow',
-             'via-forward-model', 'via-setter', 'clone:deepcopy'])
+             'via-forward-model', 'via-setter', 'clone:deepcopy', 'controls:given-as-caller-array'])
 
 NLAYERS = list(range(2, 61)) + [100]
 
@@ -194,6 +194,25 @@ def roundtrip(ctx, obj, expect):
         ctx.check('controls-roundtrip', k in fp and fp[k][2]() == v, param=k, want=v,
                   got=fp[k][2]() if k in fp else None, cls=type(obj).__name__)
 
+
+
+
+def caller_array(ctx, led, values, label, p=0.5, rng=None):
+    """The control values as the caller's own float64 array (lent to the constructor) or as a plain list."""
+    if rng.random() < p:
+        ctx.observe('controls:given-as-caller-array')
+        return led.lend(np.array(values, dtype=np.float64), label)
+    return list(values)
+
+
+def caller_reuses(ctx, rng, led, obj, arrays, what):
+    """After the object was built and read, what the caller handed in is still what it was (the constructor and the read
+    do not write into the caller's arrays).  NOT judged: what happens when the caller overwrites its arrays afterwards,
+    or whether a setter writes through to them -- NPoint keeps the caller's node lists by reference on the unchanged
+    tree, its setters write into them, and C12 speaks about the profile for its control values, not about who owns the
+    container they came in."""
+    led.settle(what)
+    return None
 
 
 def maybe_clone(ctx, rng, obj, expect=None, p=0.35):
@@ -338,8 +357,10 @@ def wl_npoint(ctx, rng):
             kw.pop('P_surface', None)
     if rng.random() < 0.3 or mode == 'slope':
         kw['limit_slope'] = float(10 ** rng.uniform(-1, 5))
-    np_ = NPoint(T_surface=temps[0], T_top=temps[-1], temperature_points=list(temps[1:-1]),
-                 pressure_points=list(pp), **kw)
+    led = own.Ledger(ctx, 'npoint')
+    g_t = caller_array(ctx, led, temps[1:-1], 'temperature_points', rng=rng) if k else list(temps[1:-1])
+    g_p = caller_array(ctx, led, pp, 'pressure_points', rng=rng) if k else list(pp)
+    np_ = NPoint(T_surface=temps[0], T_top=temps[-1], temperature_points=g_t, pressure_points=g_p, **kw)
     np_.initialize_profile(planet, n, P)
     ctx.observe('NPoint', 'nlayers:%d' % n, 'npoint:controls=%d' % (k + 2))
     ctx.feature(kind='npoint', nlayers=n, window=window, grid=gk, decl=np_._vmon_decl[1])
@@ -365,6 +386,9 @@ def wl_npoint(ctx, rng):
         rt['T_point%d' % (i + 1)] = temps[i + 1]
         rt['P_point%d' % (i + 1)] = pp[i]
     roundtrip(ctx, np_, rt)
+    again = caller_reuses(ctx, rng, led, np_, [g_t, g_p], 'NPoint built and read')
+    if again is not None:
+        accepted(ctx, again, 'npoint-after-caller-reused-its-arrays', decl=np_._vmon_decl[1])
     np_, orig = maybe_clone(ctx, rng, np_, rt)
     # change one node through the public setter: the contracts judge the new state
     fp = np_.fitting_parameters()
@@ -503,11 +527,16 @@ def wl_rodgers(ctx, rng):
     h = float(10 ** rng.uniform(-1.5, 1.5))
     ctx.observe('Rodgers2000', 'nlayers:%d' % n)
     ctx.feature(kind='rodgers', nlayers=n, h=h, grid=gk)
-    r = Rodgers2000(temperature_layers=list(temps), correlation_length=h)
+    led = own.Ledger(ctx, 'rodgers')
+    given = caller_array(ctx, led, temps, 'temperature_layers', rng=rng)
+    r = Rodgers2000(temperature_layers=given, correlation_length=h)
     r.initialize_profile(planet, n, P)
     res = access(ctx, r)
     if not accepted(ctx, res, 'rodgers', h=h, n=n):
         return
+    again = caller_reuses(ctx, rng, led, r, [given], 'Rodgers2000 built and read')
+    if again is not None:
+        accepted(ctx, again, 'rodgers-after-caller-reused-its-array', h=h, n=n)
     roundtrip(ctx, r, dict([('correlation_length', h)] + [('T_%d' % (i + 1), temps[i]) for i in range(min(n, 5))]))
     r, orig = maybe_clone(ctx, rng, r)
     if rng.random() < 0.5:
@@ -555,14 +584,20 @@ def wl_array(ctx, rng):
     planet, _ = gen_planet(rng)
     temps, pts = gen_array_case(ctx, rng, n, P)
     rev = bool(rng.random() < 0.3)
-    container = [list, np.array][rng.integers(0, 2)]
     ctx.observe('TemperatureArray', 'nlayers:%d' % n)
     ctx.feature(kind='array', nlayers=n, grid=gk, npoints=len(temps), has_p=pts is not None, reverse=rev)
-    ta = TemperatureArray(tp_array=container(temps), p_points=None if pts is None else container(pts), reverse=rev)
+    led = own.Ledger(ctx, 'temparray')
+    g_t = caller_array(ctx, led, temps, 'tp_array', rng=rng)
+    g_p = None if pts is None else caller_array(ctx, led, pts, 'p_points', rng=rng)
+    ta = TemperatureArray(tp_array=g_t, p_points=g_p, reverse=rev)
     ta.initialize_profile(planet, n, P)
     res = access(ctx, ta)
     if not accepted(ctx, res, 'array', npoints=len(temps)):
         return
+    again = caller_reuses(ctx, rng, led, ta, [g_t, g_p], 'TemperatureArray built and read')
+    if again is not None:
+        accepted(ctx, again, 'array-after-caller-reused-its-arrays', npoints=len(temps))
+    led.settle('TemperatureArray')
     reinit_again(ctx, rng, ta, n, P, planet)
     ctx.sig('array', n, gk, tuple(temps), None if pts is None else tuple(pts), rev)
     ctx.sample({'class': 'TemperatureArray', 'nlayers': n, 'controls': temps, 'p_points': pts, 'reverse': rev,
